@@ -101,7 +101,7 @@ pub fn sweep_model(tier: Tier, world: &str) -> Hist {
     alpha.bankruptcy = false;
     alpha.accrue = false;
     alpha.collect = false;
-    alpha.close_balance = false;
+    alpha.close_balance = true;
     alpha.max_clock_devs = 0;
     alpha.max_price_devs = 0;
     alpha.rich_amounts = true;
@@ -145,7 +145,7 @@ pub fn stale_model(_tier: Tier, world: &str) -> Hist {
     alpha.bankruptcy = false;
     alpha.accrue = false;
     alpha.collect = false;
-    alpha.close_balance = false;
+    alpha.close_balance = true;
     alpha.max_clock_devs = 1;
     alpha.clock_dts = vec![86_400 * 30];
     alpha.max_price_devs = 0;
@@ -176,7 +176,7 @@ pub fn run(tier: Tier) -> Outcome {
         if !want(&format!("sweep:{wn}")) {
             continue;
         }
-        let h = sweep_model(tier, wn);
+        let Some(h) = guarded(&format!("C03 sweep {wn}"), || sweep_model(tier, wn)) else { continue };
         let lim = Limits { max_depth: 1, max_wall_s: 60.0, ..Default::default() };
         let (report, recheck) = run_world(&h, &lim, None);
         runs.push(HistRun { world: format!("sweep:{wn}"), report, recheck });
@@ -197,7 +197,7 @@ pub fn run(tier: Tier) -> Outcome {
         if !want(&format!("rt:{wn}")) {
             continue;
         }
-        let h = roundtrip_model(tier, wn);
+        let Some(h) = guarded(&format!("C03 rt {wn}"), || roundtrip_model(tier, wn)) else { continue };
         let lim = Limits { max_depth: depth, max_wall_s: if tier == Tier::Quick { 25.0 } else { 1500.0 }, ..Default::default() };
         let (report, recheck) = run_world(&h, &lim, Some(depth - 2));
         runs.push(HistRun { world: format!("rt:{wn}"), report, recheck });
@@ -208,7 +208,7 @@ pub fn run(tier: Tier) -> Outcome {
         if *wn == "E" || !want(&format!("stale:{wn}")) {
             continue;
         }
-        let h = stale_model(tier, wn);
+        let Some(h) = guarded(&format!("C03 stale {wn}"), || stale_model(tier, wn)) else { continue };
         let d = if tier == Tier::Quick { 3 } else { 4 };
         let lim = Limits { max_depth: d, max_wall_s: if tier == Tier::Quick { 25.0 } else { 900.0 }, ..Default::default() };
         let (report, recheck) = run_world(&h, &lim, Some(d - 1));
